@@ -227,6 +227,31 @@ pub fn c17() -> bool {
             }
         }
     }
+    // two documents share the table: the bound is per document
+    {
+        let mut store = Store::memory();
+        let (na, nb) = (NamespaceSecret::from_bytes(&[201u8; 32]), NamespaceSecret::from_bytes(&[202u8; 32]));
+        let (ia, ib) = (na.id(), nb.id());
+        let _ = store.new_replica(na).unwrap();
+        store.close_replica(ia);
+        let _ = store.new_replica(nb).unwrap();
+        store.close_replica(ib);
+        let (mut ma, mut mb) = (vec![], vec![]);
+        for i in 0..4u8 {
+            reg(&mut store, &mut ma, ia, [20 + i; 32]);
+        }
+        for i in 0..6u8 {
+            reg(&mut store, &mut mb, ib, [40 + i; 32]);
+            reg(&mut store, &mut ma, ia, [20 + (i % 4); 32]);
+        }
+        for (name, id, model) in [("A", ia, &ma), ("B", ib, &mb)] {
+            let got: Vec<[u8; 32]> = store.get_sync_peers(&id).unwrap().map(|it| it.collect()).unwrap_or_default();
+            if &got != model {
+                eprintln!("c17[two documents, {name}]: stored {:?}, MRU model {:?}", got.iter().map(|p| p[0]).collect::<Vec<_>>(), model.iter().map(|p| p[0]).collect::<Vec<_>>());
+                bad = true;
+            }
+        }
+    }
     // a longer pseudo-random history over 7 peers
     let mut store = Store::memory();
     let ns = NamespaceSecret::from_bytes(&[200u8; 32]);
